@@ -39,6 +39,7 @@ RULE = ('A case is a history: 1-3 example sets (C03 templates, default '
         'Non-trivial: >=3 distinct examples and >=2 expressions in a '
         'compared result, or a seeded call on the sampling path; distinct by '
         'case hash.')
+RULE += ' ' + 'Also: input forms dict with zero-count keys, categorical Series with unused categories, byte strings with utf-8-sig (BOM-prefixed duplicates) and byte-string frequency dictionaries; pruning options (where repeating an example is a different multiset and is not generated); empty multisets by construction; the interpreter differential works on pairs of sets sharing their options, half of the interpreters in reverse order.'
 ASSUMPTIONS = ['Series form goes through pdextract, which only takes a seed: '
                'it is compared with the default-option list extraction']
 
